@@ -137,6 +137,32 @@ fn explore(api: &Api, kind: Kind, tier: Tier, seed: u64, cx: &mut Cx) {
                 judge(cx, &m, &|| "extend".into(), &|| json!({"action": "extend", "by": extra, "pattern": pat}));
             }
         }
+        // insertions and deletions of a single byte at every offset (a decoder that tolerates a legacy / optional byte
+        // somewhere in the middle accepts a second encoding that plain extension at the end never produces)
+        for off in 0..=len {
+            let neighbour = if off < len { b[off] } else { b[len - 1] };
+            for v in [0x00u8, 0x01, 0x02, 0x03, 0xff, neighbour] {
+                let mut m = b.clone();
+                m.insert(off, v);
+                judge(cx, &m, &|| "insert".into(), &|| json!({"action": "insert byte", "offset": off, "value": v}));
+            }
+            if off < len {
+                let mut m = b.clone();
+                m.remove(off);
+                judge(cx, &m, &|| "delete".into(), &|| json!({"action": "delete byte", "offset": off}));
+            }
+        }
+        // depth 2: the first byte of any field set to a small tag-like value, combined with a one- or two-byte extension
+        // or a one-byte truncation (an optional leading mode / version / tag byte that shifts the rest)
+        for f in &layout {
+            for v in [0x00u8, 0x01, 0x02, 0x03, 0x04, 0xff] {
+                let mut base = b.clone();
+                base[f.start] = v;
+                for (nm, m) in [("extend1", [&base[..], &[0u8][..]].concat()), ("extend1b", [&base[..], &[v][..]].concat()), ("extend2", [&base[..], &[0u8, 0u8][..]].concat()), ("truncate1", base[..len - 1].to_vec())] {
+                    judge(cx, &m, &|| format!("depth2/first-byte+{}/{}", nm, f.name), &|| json!({"action": "set first byte of field + length change", "field": f.name, "value": v, "length_change": nm}));
+                }
+            }
+        }
         // alias arithmetic
         for f in &layout {
             let g = match sp.group_of(f.ty) {
@@ -222,7 +248,7 @@ pub fn run(tier: Tier, seed: u64) -> i32 {
         rule: "explicit-state enumeration of the decoder mutation LTS: roots = honest encodings (and encodings with special valid field values) of all 11 decoders x 20 suites; every action of the alphabet is applied to every root; a state is a distinct (decoder, byte string); oracle: decode ok => re-encode identical".into(),
         bounds: json!({"suites": 20, "decoders": 11, "depth": if tier.thorough() {2} else {1},
             "setbyte": if tier.thorough() {"every offset x all 255 other values"} else {"all 256 values of each element field's leading byte; every other offset x {^0x01, ^0x80}"},
-            "truncate": "every length 0..len-1", "extend": "1..64 bytes x {zeros, 0xAA, copy of head}", "alias": "x+p, other SEC1 tags, s+p, bit 255, p-s, s+n, unclamped",
+            "truncate": "every length 0..len-1", "extend": "1..64 bytes x {zeros, 0xAA, copy of head}", "insert_delete": "one byte inserted at every offset (6 values) / deleted at every offset", "first_byte_x_length": "first byte of every field in {00,01,02,03,04,ff} x {extend by 1, 2, truncate by 1}", "alias": "x+p, other SEC1 tags, s+p, bit 255, p-s, s+n, unclamped",
             "depth2": if tier.thorough() {"7 tags x every byte of the field x 255 values (honest roots, P-curve element fields)"} else {"-"},
             "roots_per_decoder": if tier.thorough() {"2 honest + special values per element/scalar field"} else {"1 honest + special values per element/scalar field"}}),
         assumptions: vec!["ground truth for special valid points comes from the p256/p384/p521/curve25519-dalek crates".into(), "serde forms are out of scope for C10 (native decoders only, as the property states)".into()],
